@@ -115,6 +115,7 @@ theorem step_ghost_other (c : Conn α) (l : Label α) (hl : ∀ calls listen ver
         · split <;> exact ⟨rfl, rfl⟩
         · exact ⟨rfl, rfl⟩
   | «end» => exact ⟨rfl, rfl⟩
+  | evict _ _ => exact ⟨rfl, rfl⟩
 
 theorem postPrimed_born (c : Conn α) (calls : List Nat) (listen : Bool) (ver : Ver) (budget : Option Nat) :
     (postPrimed c calls listen ver budget).born = (fun k => if k = c.nextSid then some c.exs.length else c.born k) := by
@@ -189,6 +190,7 @@ theorem ext_step {c : Conn α} (h10 : Inv10 c) (hb : InvBorn c) (l : Label α) :
     | get _ _ _ => rw [(step_ghost_other c _ (by intros; simp)).2]; exact hv
     | sclose _ _ => rw [(step_ghost_other c _ (by intros; simp)).2]; exact hv
     | «end» => exact hv
+    | evict _ _ => exact hv
   · intro sid x hx
     cases l with
     | post calls listen ver b =>
@@ -205,6 +207,7 @@ theorem ext_step {c : Conn α} (h10 : Inv10 c) (hb : InvBorn c) (l : Label α) :
     | get _ _ _ => rw [(step_ghost_other c _ (by intros; simp)).1]; exact hx
     | sclose _ _ => rw [(step_ghost_other c _ (by intros; simp)).1]; exact hx
     | «end» => exact hx
+    | evict _ _ => exact hx
 
 theorem invBorn_old_ex {c : Conn α} (hw : Inv c) (hb : InvBorn c) (l : Label α) :
     ∀ sid x, c.born sid = some x → ∃ e, (step c l).exs[x]? = some e ∧ e.stream = sid ∧ e.live ∧ e.from = 0 := by
@@ -288,6 +291,7 @@ theorem invBorn_step {c : Conn α} (hw : Inv c) (hb : InvBorn c) (l : Label α) 
   | get _ _ _ => exact invBorn_step_other hw hb _ (by intros; simp)
   | sclose _ _ => exact invBorn_step_other hw hb _ (by intros; simp)
   | «end» => exact invBorn_step_other hw hb _ (by intros; simp)
+  | evict _ _ => exact invBorn_step_other hw hb _ (by intros; simp)
 
 /-! ### generic message invariant -/
 
@@ -597,16 +601,8 @@ theorem invMsg_get (hP : PMono P) {c : Conn α} (hw : Inv c) (h : InvMsg P c) (h
         · rename_i items hitems
           refine invMsg_getGo hP hw h _ _ _ _ items ?_
           intro it hit
-          unfold replayItems at hitems
-          split at hitems
-          · split at hitems
-            · cases hitems
-            · cases hlog : c.store hdr.sid with
-              | none => rw [hlog] at hitems; cases hitems
-              | some log =>
-                rw [hlog] at hitems; simp at hitems; subst hitems
-                exact h.log hdr.sid log hlog it (mem_toReplay hit)
-          · cases hitems; cases hit
+          obtain ⟨log, hlog, hmem⟩ := replayItems_mem hitems it hit
+          exact h.log hdr.sid log hlog it hmem
 
 /-- what a write label must guarantee: `P` holds on the stream the write is routed to -/
 def RouteOK (P : Conn α → Nat → Item α → Prop) (c : Conn α) : Label α → Prop
@@ -628,5 +624,10 @@ theorem invMsg_step (hP : PMono P) {c : Conn α} (hw : Inv c) (h10 : Inv10 c) (h
     exact ⟨fun s hs p hp it hit => hm _ _ (h.pend s hs p hp it hit),
       fun j e he o ho it hit => hm _ _ (h.ex j e he o ho it hit),
       fun sid log hl it hit => hm _ _ (h.log sid log hl it hit)⟩
+  | evict sid n =>
+    have hm := pmono_eq (c := c) (c' := evict c sid n) hP rfl rfl rfl
+    exact ⟨fun s hs p hp it hit => hm _ _ (h.pend s hs p hp it hit),
+      fun j e he o ho it hit => hm _ _ (h.ex j e he o ho it hit),
+      fun sid' log hl it hit => hm _ _ (h.log sid' log hl it hit)⟩
 
 end Resume
